@@ -14,6 +14,8 @@ import (
 	"path/filepath"
 	"strings"
 	"sync"
+	"syscall"
+	"time"
 
 	"github.com/folbricht/desync"
 
@@ -29,7 +31,11 @@ func parentSetup(tier string, seed int64, work string) ([]string, error) {
 	if err != nil {
 		return nil, err
 	}
-	return []string{"VERIF_CLI=" + p}, nil
+	sh, err := harness.BuildHelper(work, "shim", "./helpers/shim", "verif")
+	if err != nil {
+		return nil, err
+	}
+	return []string{"VERIF_CLI=" + p, "VERIF_SHIM=" + sh}, nil
 }
 
 type cliMember struct {
@@ -52,8 +58,11 @@ func chunkPath(dir string, id desync.ChunkID) string {
 }
 
 func newCLIMember(rng *rand.Rand, base, name string, ids []desync.ChunkID, data [][]byte, fill int, writable bool) *cliMember {
-	m := &cliMember{name: name, kind: []string{"local", "http", "s3"}[rng.Intn(3)], dir: filepath.Join(base, name), gets: map[string]int{}}
-	if writable && m.kind == "s3" {
+	m := &cliMember{name: name, kind: []string{"local", "http", "s3", "local", "http", "s3", "ssh"}[rng.Intn(7)], dir: filepath.Join(base, name), gets: map[string]int{}}
+	if writable && (m.kind == "s3" || m.kind == "ssh") {
+		m.kind = "local"
+	}
+	if m.kind == "ssh" && os.Getenv("VERIF_SHIM") == "" {
 		m.kind = "local"
 	}
 	os.MkdirAll(m.dir, 0755)
@@ -75,6 +84,10 @@ func newCLIMember(rng *rand.Rand, base, name string, ids []desync.ChunkID, data 
 		}
 	}
 	m.loc = m.dir
+	if m.kind == "ssh" {
+		// the casync protocol: `desync pull` on the directory behind the stand-in for ssh
+		m.loc = "ssh://localhost" + m.dir
+	}
 	if m.kind == "s3" {
 		// the same objects in a bucket of the S3 stand-in
 		m.s3 = fakes.NewS3("bucket")
@@ -304,11 +317,28 @@ func cliChain(c *harness.Ctx) {
 		full = append(full, idxPath, out)
 	}
 	cmd := exec.Command(cliBin, full...)
-	cmd.Env = append(os.Environ(), "HOME="+base, "S3_ACCESS_KEY=key", "S3_SECRET_KEY=secret", "S3_REGION=us-east-1")
+	cmd.Env = append(os.Environ(), "HOME="+base, "S3_ACCESS_KEY=key", "S3_SECRET_KEY=secret", "S3_REGION=us-east-1", "CASYNC_SSH_PATH="+os.Getenv("VERIF_SHIM"), "CASYNC_REMOTE_PATH="+cliBin)
 	var stdout, stderr bytes.Buffer
 	cmd.Stdout = &stdout
 	cmd.Stderr = &stderr
-	err := cmd.Run()
+	err := cmd.Start()
+	if err == nil {
+		done := make(chan error, 1)
+		go func() { done <- cmd.Wait() }()
+		select {
+		case err = <-done:
+		case <-time.After(60 * time.Second):
+			// a command that takes a fraction of a second has not returned: what are its goroutines doing (DESIGN 4.2)
+			cmd.Process.Signal(syscall.SIGQUIT)
+			<-done
+			if harness.DumpIsStuckWaitingForChildren(stderr.String()) {
+				c.Violation("cli-chain-hang", "desync %s over (%s) did not return; every goroutine waits for a channel, a lock or its own idle helper processes:\n%s", cmdName, strings.Join(shape, " ; "), stderr.String())
+			} else {
+				c.Inconclusive("desync %s did not return within 60 s, goroutine dump not conclusive:\n%s", strings.Join(full, " "), stderr.String())
+			}
+			return
+		}
+	}
 	got := "ok"
 	if err != nil {
 		got = "fail"
